@@ -62,7 +62,7 @@ func runC16(c *eng.Ctx, tier string) {
 	allowTrue := func(in ssa.Instruction) bool {
 		for _, cond := range factsDeep(in) {
 			if v, truth, isB := cond.Bool(); isB && truth {
-				if fr, _, isF := eng.LoadedField(v); isF && fr.Is(setecPkg, "Store", "allowLookup") {
+				if fr, _, isF := eng.LoadedField(v); isF && fr.Is(setecPkg, "Store", storeField("allowLookup")) {
 					return true
 				}
 			}
@@ -94,7 +94,7 @@ func runC16(c *eng.Ctx, tier string) {
 			}
 			// receiver must be the Store's client field to count as "the store contacting the service"
 			fr, _, isF := eng.LoadedField(ci.Common().Value)
-			if !isF || !fr.Is(setecPkg, "Store", "client") {
+			if !isF || !fr.Is(setecPkg, "Store", storeField("client")) {
 				return
 			}
 			where := eng.Outer(f)
@@ -113,7 +113,7 @@ func runC16(c *eng.Ctx, tier string) {
 	// allowLookup written only in NewStore
 	for _, f := range p.PkgFuncs(setecPkg) {
 		for _, a := range eng.FieldAccesses(f) {
-			if a.Write && a.Field.Is(setecPkg, "Store", "allowLookup") {
+			if a.Write && a.Field.Is(setecPkg, "Store", storeField("allowLookup")) {
 				c.Check(f == newStore, "R-C16-1", f, a.In.Pos(), "write of Store.allowLookup", "the policy is fixed by the constructor", "written in "+eng.FName(f))
 				// ... as exactly what the configuration says: lookups are enabled by StoreConfig.AllowLookup and nothing else
 				if st, isSt := a.In.(*ssa.Store); isSt {
@@ -136,7 +136,7 @@ func runC16(c *eng.Ctx, tier string) {
 				return
 			}
 			fr, _, isF := eng.LoadedField(v)
-			if !isF || !fr.Is(setecPkg, "Store", "allowLookup") {
+			if !isF || !fr.Is(setecPkg, "Store", storeField("allowLookup")) {
 				return
 			}
 			// the edge on which allowLookup is false
@@ -453,7 +453,7 @@ func c16Retry(c *eng.Ctx, lk *ssa.Function, do *ssa.Call, lit *ssa.Function) {
 	ctxP := ctxParam(lk)
 	isCtxErrIs := func(cond eng.Cond) (bool, bool) {
 		call, _, truth, isCall := cond.BoolCall()
-		if !isCall || !eng.CalleeIs(&call.Call, "errors", "Is") || !eng.Same(call.Call.Args[0], derr) {
+		if !isCall || !eng.CalleeIs(&call.Call, "errors", "Is") || !eng.SameX(call.Call.Args[0], derr) {
 			return false, false
 		}
 		if eng.IsGlobalLoad(call.Call.Args[1], "context", "DeadlineExceeded") || eng.IsGlobalLoad(call.Call.Args[1], "context", "Canceled") {
@@ -470,6 +470,20 @@ func c16Retry(c *eng.Ctx, lk *ssa.Function, do *ssa.Call, lit *ssa.Function) {
 		cond := eng.CondOf(ifi.Cond, i == 0)
 		if is, truth := isCtxErrIs(cond); is && truth {
 			return false
+		}
+		// the classification may sit in a boolean helper: the edge is closed
+		// if the helper cannot give this answer for an error that is no
+		// context error
+		if hc, _, truth, isCall := cond.BoolCall(); isCall && eng.IsHelper(lk, eng.Callee(&hc.Call)) {
+			canT, canF := eng.BoolHelperAssume(hc, func(v ssa.Value) (bool, bool) {
+				if is, _ := isCtxErrIs(eng.CondOf(v, true)); is {
+					return false, true
+				}
+				return false, false
+			})
+			if (truth && !canT) || (!truth && !canF) {
+				return false
+			}
 		}
 		return true
 	}
@@ -577,6 +591,20 @@ func c16Retry(c *eng.Ctx, lk *ssa.Function, do *ssa.Call, lit *ssa.Function) {
 		}
 		if bv, truth, isB := cond.Bool(); isB && witness(eng.Origin(bv)) {
 			return !truth // this call did not run the fetch
+		}
+		if hc, _, truth, isCall := cond.BoolCall(); isCall && eng.IsHelper(lk, eng.Callee(&hc.Call)) {
+			canT, canF := eng.BoolHelperAssume(hc, func(v ssa.Value) (bool, bool) {
+				cd := eng.CondOf(v, true)
+				if is, _ := isCtxErrIs(cd); is {
+					if c2, _, _, _ := cd.BoolCall(); c2 != nil && eng.IsGlobalLoad(c2.Call.Args[1], "context", "DeadlineExceeded") {
+						return true, true
+					}
+				}
+				return false, false
+			})
+			if (truth && !canT) || (!truth && !canF) {
+				return false
+			}
 		}
 		return true
 	}
